@@ -647,6 +647,11 @@ func (t *Terminal) handleKey(key rune) (line []string, ok bool) {
 			t.maxLine = 0
 			t.posLastLF = 0
 		} else {
+			// Enter takes the whole line, wherever the cursor stands in it:
+			// the line break, and what is typed next, go to the end of the
+			// entry
+			t.moveCursorToPos(len(t.line))
+			t.pos = len(t.line)
 			t.posLastLF = t.pos
 			t.cursorX = 0
 			// replace line break with a space
